@@ -50,9 +50,9 @@ CLAIMED = {
     "C02": ("executable Coq model of every decoder (Raw, CopyRect, RRE, CoRRE, Hextile walk, ZRLE tile walk over the inflated stream, "
             "cursor, desktop-size, last-rect, QEMU key) run against the real client on streams produced by an RFC 6143 encoder written "
             "independently; the real client's screen must equal the encoder's framebuffer, its commits the updates sent, and a trailing "
-            "Bell must be seen last (exact consumption); theorems: continuation-form round trips for Raw and CopyRect and for whole updates "
-            "of any number of such rectangles (begin, every callback once in order, one commit, exact consumption, Bell once afterwards), "
-            "termination/landing of every decoder (C15), chunk invariance (C01); round trips for RRE/CoRRE/Hextile/ZRLE/cursor are not "
+            "Bell must be seen last (exact consumption); theorems: continuation-form round trips for Raw, CopyRect, RRE and CoRRE rectangles "
+            "and for whole updates mixing any number of them (begin, every callback once in order, one commit, exact consumption, Bell once "
+            "afterwards), termination/landing of every decoder (C15), chunk invariance (C01); round trips for Hextile/ZRLE/cursor are not "
             "proved (PARTIAL, see DESIGN.md 9.2)",
             "zlib is an oracle tape; Pillow modelled; two ZRLE defects are recorded known findings; strict hextile carry-over reading",
             "Coq model + partial proofs; decided mainly by differential correspondence against an independent RFC 6143 encoder (translation-validation style)"),
